@@ -57,8 +57,8 @@ func clientEffect(fn *ssa.Function, ci ssa.CallInstruction) *Effect {
 	if !ok {
 		return nil
 	}
-	// Invoke args exclude the receiver.
-	ai := idx - 1
+	// Invoke args exclude the receiver: (ctx, [key,] obj, opts...).
+	ai := idx
 	if ai < 0 || ai >= len(c.Args) {
 		return nil
 	}
